@@ -20,7 +20,7 @@ use std::process::{Command, Stdio};
 use std::sync::atomic::{AtomicUsize, Ordering};
 use std::sync::{Arc, Mutex};
 
-pub const FAMILIES: [&str; 39] = [
+pub const FAMILIES: [&str; 47] = [
     "block-literal-lines",
     "block-folded-long-lines",
     "block-wide-indent",
@@ -61,6 +61,14 @@ pub const FAMILIES: [&str; 39] = [
     "sibling-sequence-keys",
     "sibling-mapping-keys",
     "sibling-long-scalar-keys",
+    "deep-nest-many-aliases",
+    "deep-nest-many-scalars",
+    "wide-flowseq-key-in-flowseq",
+    "wide-flowseq-key-in-flowmap",
+    "wide-flowseq-key-in-flowmap-lines",
+    "wide-flowmap-key-in-flowmap",
+    "wide-flowseq-key-explicit",
+    "wide-blockseq-key-explicit",
 ];
 pub const APIS: [&str; 4] = ["iter-str", "iter-buffered", "load-yaml", "load-marked"];
 pub const RATIO_LIMIT: f64 = 6.0;
@@ -305,6 +313,51 @@ pub fn render(family: &str, bytes: usize) -> String {
             while s.len() < bytes {
                 s.push_str("--- {a: [1, 2, {b: c}], d: \"e\"}\n");
             }
+        }
+        // ONE collection with thousands of entries in key position: everything the scanner and
+        // the loader keep per pending key is held across the whole collection
+        "wide-flowseq-key-in-flowseq" | "wide-flowseq-key-in-flowmap" | "wide-flowseq-key-in-flowmap-lines" | "wide-flowmap-key-in-flowmap" => {
+            let (open, inner_open, item, inner_close, close) = match family {
+                "wide-flowseq-key-in-flowseq" => ("[", "[", "a, ", "z]", ": v]\n"),
+                "wide-flowseq-key-in-flowmap" => ("{", "[", "a, ", "z]", ": v}\n"),
+                "wide-flowseq-key-in-flowmap-lines" => ("{", "[", "a,\n ", "z]", ": v}\n"),
+                _ => ("{", "{", "a: b, ", "z: z}", ": v}\n"),
+            };
+            s.push_str(open);
+            s.push_str(inner_open);
+            while s.len() < bytes {
+                s.push_str(item);
+            }
+            s.push_str(inner_close);
+            s.push_str(close);
+        }
+        "wide-flowseq-key-explicit" => {
+            s.push_str("? [");
+            while s.len() < bytes {
+                s.push_str("a, ");
+            }
+            s.push_str("z]\n: v\n");
+        }
+        "wide-blockseq-key-explicit" => {
+            s.push_str("? - a\n");
+            while s.len() < bytes {
+                s.push_str("  - a\n");
+            }
+            s.push_str(": v\n");
+        }
+        "deep-nest-many-aliases" | "deep-nest-many-scalars" => {
+            // depth and leaf count both grow with the size: per-leaf work that depends on the
+            // nesting depth shows up as quadratic
+            let depth = (bytes / 8).min(16_384);
+            s.push_str("- &a x\n- ");
+            for _ in 0..depth {
+                s.push_str("- ");
+            }
+            s.push('[');
+            while s.len() < bytes {
+                s.push_str(if family == "deep-nest-many-aliases" { "*a, " } else { "yy, " });
+            }
+            s.push_str("z]\n");
         }
         "sibling-sequence-keys" => {
             while s.len() < bytes {
